@@ -380,13 +380,11 @@ def sym_notify(vc):
 # ------------------------------------------------------------------------------------------------ unstream.py
 
 def sym_unstream(vc):
-    """unstream: descriptor from the first line; one lazy reader per resource of the descriptor; a reader yields the decoded
-    lines up to the first empty line; opens the given name (never the .active name)"""
+    """unstream(name): opens exactly the given name for reading (never the .active name); nothing else at construction"""
     import z3
     from pyvc.api import real_function, check, cover, sym_str, term, StrS, LoopSpec, yields_of, GenObj
     fk = vc.under_contract(P + 'unstream.py', ['unstream'])
-    vc.under_contract(P + 'unstream.py', ['unstream', 'read'])
-    vc.under_contract(P + 'unstream.py', ['unstream', 'res_reader'])
+    # (read / res_reader / func have their own contract: C07.sym_res_reader, also an item of C08)
 
     def thunk(it):
         un = real_function(it, 'dataflows.processors.unstream', 'unstream')
